@@ -50,7 +50,9 @@ func c20get(idx int) (c20case, []resp.Value, []byte, []int) {
 		c.CutOff = r.Intn(len(stream) + 1)
 		stream = stream[:c.CutOff]
 	case "malformed":
-		stream = append(stream, rng.Pick(r, []string{"!oops\r\n", "$abc\r\n", "*x\r\n", "$3\r\nabcdef", "*2\r\n$1\r\na\r\n!"})...)
+		stream = append(stream, rng.Pick(r, []string{"!oops\r\n", "$abc\r\n", "*x\r\n", "$3\r\nabcdef", "*2\r\n$1\r\na\r\n!",
+			// headers without digits, a lone type byte at the end of the stream, a sign without digits
+			"*\r\n", "$\r\n", "*2\r\n$\r\n", "$", "*", ":", "+", "*-\r\n", "$-\r\n", "*2\r\n$4\r\nECHO\r\n$"})...)
 	}
 	c.Chunking = rng.Pick(r, []string{chWhole, chPerReq, chByte, chRandom})
 	return c, reqs, stream, ends
